@@ -182,9 +182,15 @@ def values(st):
     return [digest(t) for _, t in st['plain']], [mask_param(k) for k in st['masks']], [alpha_cols(q) for q in st['samplers']]
 
 
+def leaf_mode(W):
+    """mode of the modules that compute something (containers' flags are irrelevant, fx roots keep a flag of their own)"""
+    fl = {bool(m.training) for m in W.modules() if len(list(m.children())) == 0}
+    return fl.pop() if len(fl) == 1 else 'MIXED'
+
+
 def view(W, st, method):
     """transient options as the implementation holds them (python attributes), plus the MPS temperature buffers"""
-    v = {'training': bool(W.training)}
+    v = {'training': leaf_mode(W)}
     if method == 'PIT':
         v['disc'] = [bool(W.discrete_cost)] + [bool(l['mod'].discrete_cost) for l in st['layers']]
     else:
@@ -415,24 +421,44 @@ def run_case(case):
     res['changed'] = changed_options(W, R.st, cfg)
     sd = copy.deepcopy(W.state_dict())
     res['ckpt_keys'] = sorted(sd.keys())
-    W2 = build(cfg)
-    res['fresh_keys'] = sorted(W2.state_dict().keys())
-    try:
-        r = W2.load_state_dict(sd, strict=True)
-        res['load'] = {'ok': True, 'missing': list(r.missing_keys), 'unexpected': list(r.unexpected_keys)}
-    except Exception as ex:
-        res['load'] = {'ok': False, 'exc': type(ex).__name__, 'msg': str(ex)[:600]}
-        return res
-    W2.train(W.training)
+    lm = leaf_mode(W)
+    res['uniform_mode'] = lm != 'MIXED'
+    seed_mode = lm if lm != 'MIXED' else bool(W.seed.training)
+    # restart protocols:  A build, load, train(mode)/eval(), forward      (only when the original has one mode for all modules)
+    #                     B build from a seed that is already in the mode of the original, load, forward: NO mode call at all
+    #                     C build, train(mode)/eval(), load, forward
+    protos = ['A', 'B', 'C'] if res['uniform_mode'] else ['B']
+    restored = {}
+    for pr in protos:
+        c2 = cfg if pr != 'B' else dict(cfg, opts=dict(cfg['opts'], seed_training=seed_mode))
+        W2 = build(c2)
+        if pr == 'C':
+            W2.train(seed_mode)
+        if 'fresh_keys' not in res:
+            res['fresh_keys'] = sorted(W2.state_dict().keys())
+        try:
+            r = W2.load_state_dict(sd, strict=True)
+            ld = {'ok': True, 'missing': list(r.missing_keys), 'unexpected': list(r.unexpected_keys)}
+        except Exception as ex:
+            ld = {'ok': False, 'exc': type(ex).__name__, 'msg': str(ex)[:600]}
+        res.setdefault('load', ld)
+        res.setdefault('loads', {})[pr] = ld
+        if not ld['ok']:
+            return res
+        if pr == 'A':
+            W2.train(seed_mode)
+        restored[pr] = W2
     noise = R.noise + 1
     res['noise'] = noise
     x = R.x(noise)
     oa = observe(W, x, 1000 + noise, cb=lambda: {'thetas': theta_impl(R.st, cfg['method']) if cfg['method'] != 'PIT' else [],
                                                    'eff': pit_eff_impl(R.st) if cfg['method'] == 'PIT' else []})
     res['after_fwd'] = oa.pop('_cb')
-    ob = observe(W2, x, 1000 + noise)
-    res['eq'] = {k: same(oa[k], ob[k], k) for k in ('out', 'cost', 'summary', 'export')}
-    res['brief'] = {k: (brief(oa[k], k), brief(ob[k], k)) for k in ('out', 'cost', 'summary', 'export') if not res['eq'][k]}
+    res['eqs'], res['briefs'] = {}, {}
+    for pr in protos:
+        ob = observe(restored[pr], x, 1000 + noise)
+        res['eqs'][pr] = {k: same(oa[k], ob[k], k) for k in ('out', 'cost', 'summary', 'export')}
+        res['briefs'][pr] = {k: (brief(oa[k], k), brief(ob[k], k)) for k in ('out', 'cost', 'summary', 'export') if not res['eqs'][pr][k]}
+    res['eq'] = {k: all(res['eqs'][pr][k] for pr in protos) for k in ('out', 'cost', 'summary', 'export')}
     res['exc'] = {k: oa[k] for k in oa if isinstance(oa[k], str) and oa[k].startswith('EXC')}
-    res['exc_restored'] = {k: ob[k] for k in ob if isinstance(ob[k], str) and ob[k].startswith('EXC')}
     return res
